@@ -173,70 +173,86 @@ RunLoop:
 			case code.OpAdd:
 				res, ok = Add(x, y)
 				if !ok {
+					c.pc = pc // the metamethod may ask for the caller's position
 					res, err = binaryArithFallback(t, "__add", x, y)
 				}
 			case code.OpSub:
 				res, ok = Sub(x, y)
 				if !ok {
+					c.pc = pc // the metamethod may ask for the caller's position
 					res, err = binaryArithFallback(t, "__sub", x, y)
 				}
 			case code.OpMul:
 				res, ok = Mul(x, y)
 				if !ok {
+					c.pc = pc // the metamethod may ask for the caller's position
 					res, err = binaryArithFallback(t, "__mul", x, y)
 				}
 			case code.OpDiv:
 				res, ok = Div(x, y)
 				if !ok {
+					c.pc = pc // the metamethod may ask for the caller's position
 					res, err = binaryArithFallback(t, "__div", x, y)
 				}
 			case code.OpFloorDiv:
 				res, ok, err = Idiv(x, y)
 				if !ok {
+					c.pc = pc // the metamethod may ask for the caller's position
 					res, err = binaryArithFallback(t, "__idiv", x, y)
 				}
 			case code.OpMod:
 				res, ok, err = Mod(x, y)
 				if !ok {
+					c.pc = pc // the metamethod may ask for the caller's position
 					res, err = binaryArithFallback(t, "__mod", x, y)
 				}
 			case code.OpPow:
 				res, ok = Pow(x, y)
 				if !ok {
+					c.pc = pc // the metamethod may ask for the caller's position
 					res, err = binaryArithFallback(t, "__pow", x, y)
 				}
 
 			// Bitwise
 
 			case code.OpBitAnd:
+				c.pc = pc
 				res, err = band(t, x, y)
 			case code.OpBitOr:
+				c.pc = pc
 				res, err = bor(t, x, y)
 			case code.OpBitXor:
+				c.pc = pc
 				res, err = bxor(t, x, y)
 			case code.OpShiftL:
+				c.pc = pc
 				res, err = shl(t, x, y)
 			case code.OpShiftR:
+				c.pc = pc
 				res, err = shr(t, x, y)
 
 			// Comparison
 
 			case code.OpEq:
 				var r bool
+				c.pc = pc
 				r, err = eq(t, x, y)
 				res = BoolValue(r)
 			case code.OpLt:
 				var r bool
+				c.pc = pc
 				r, err = Lt(t, x, y)
 				res = BoolValue(r)
 			case code.OpLeq:
 				var r bool
+				c.pc = pc
 				r, err = le(t, x, y)
 				res = BoolValue(r)
 
 			// Concatenation
 
 			case code.OpConcat:
+				c.pc = pc
 				res, err = Concat(t, x, y)
 			default:
 				panic("unsupported")
@@ -264,6 +280,9 @@ RunLoop:
 			reg := opcode.GetA()
 			coll := getReg(regs, cells, opcode.GetB())
 			idx := getReg(regs, cells, opcode.GetC())
+			// Index and SetIndex may run metamethods, which may ask for the
+			// position of their caller.
+			c.pc = pc
 			if !opcode.GetF() {
 				val, err := Index(t, coll, idx)
 				if err != nil {
@@ -316,11 +335,14 @@ RunLoop:
 				case code.OpNeg:
 					res, ok = Unm(val)
 					if !ok {
+						c.pc = pc
 						res, err = unaryArithFallback(t, "__unm", val)
 					}
 				case code.OpBitNot:
+					c.pc = pc
 					res, err = bnot(t, val)
 				case code.OpLen:
+					c.pc = pc
 					res, err = Len(t, val)
 				case code.OpCont:
 					var cont Cont
